@@ -148,6 +148,17 @@ func corpus() []Scenario {
 		r = append(r, Scenario{"corpus:ack-and-close-ready", onePlan(3),
 			[]Decision{{T: "call", C: 0}, until("c0", "rpc.retry.select"), {T: "acks", IDs: []int64{id}}, {T: "fclose"}, step("x0"), fin("c0")}, uint64(i)})
 	}
+	// C25 / C26: the pending id stands behind unknown / duplicate ids in one ack batch
+	r = append(r, Scenario{"corpus:ack-batch-unknown-first-then-timer", onePlan(3),
+		[]Decision{{T: "call", C: 0}, until("c0", "rpc.retry.select"), {T: "acks", IDs: []int64{9999, id, id, 8888}}, {T: "fire", C: 0},
+			step("c0"), step("c0"), step("c0"), step("c0"), {T: "fire", C: 0}}, 1})
+	r = append(r, Scenario{"corpus:ack-batch-unknown-first-then-close", onePlan(3),
+		[]Decision{{T: "call", C: 0}, until("c0", "rpc.retry.select"), {T: "acks", IDs: []int64{9999, 9999, id}}, {T: "fclose"}, step("x0"), fin("c0")}, 1})
+	// the id of a call that has already finished stands in front of the pending one
+	r = append(r, Scenario{"corpus:ack-batch-finished-first", Plan{MaxRetries: 3, Calls: []CallPlan{{ID: 1001, Seq: 3, Body: 77}, {ID: 1002, Seq: 5, Body: 78}}},
+		[]Decision{{T: "call", C: 0}, until("c0", "rpc.retry.select"), {T: "res", M: 1001, V: 5}, fin("n0"), fin("c0"),
+			{T: "call", C: 1}, until("c1", "rpc.retry.select"), {T: "acks", IDs: []int64{1001, 1002}}, {T: "fire", C: 1},
+			step("c1"), step("c1"), step("c1"), step("c1"), {T: "fclose"}, step("x0"), fin("c1")}, 1})
 	// C26: cancel before the first transmission completes (ctx error from send): no drop
 	r = append(r, Scenario{"corpus:cancel-before-send", onePlan(3, SendCtx),
 		[]Decision{{T: "call", C: 0}, until("c0", "rpc.retry.ackwait"), {T: "cancel", C: 0}, fin("c0")}, 1})
@@ -212,6 +223,8 @@ func injections(sc Scenario) [][]Decision {
 		{{T: "res", M: id, Bad: true}, until("", "rpc.handler.claimed"), {T: "fclose"}},
 		{{T: "err", M: id, Code: 304}, until("", "rpc.handler.claimed"), {T: "cancel", C: 0}},
 		{{T: "res", M: id, V: 97}, until("", "rpc.handler.claimed"), {T: "fire", C: 0}},
+		{{T: "acks", IDs: []int64{id + 5000, id, id}}, {T: "fire", C: 0}},
+		{{T: "acks", IDs: []int64{id + 5000, id + 5001, id}}, {T: "fclose"}},
 	}
 }
 
@@ -289,8 +302,19 @@ func randomRun(rng *hx.Rand) (*Sim, []string, Scenario) {
 					ids = append(ids, p.Calls[i].ID)
 				}
 			}
-			if rng.Chance(1, 5) {
-				ids = append(ids, 9001)
+			// unknown, already finished (they are among started) and duplicate ids, anywhere in the batch
+			for x := rng.Intn(3); x > 0 && len(ids) > 0; x-- {
+				var extra int64
+				switch rng.Intn(3) {
+				case 0:
+					extra = int64(9000 + rng.Intn(3))
+				case 1:
+					extra = ids[rng.Intn(len(ids))]
+				default:
+					extra = p.Calls[started[rng.Intn(len(started))]].ID
+				}
+				at := rng.Intn(len(ids) + 1)
+				ids = append(ids[:at], append([]int64{extra}, ids[at:]...)...)
 			}
 			if len(ids) > 0 {
 				s.Apply(Decision{T: "acks", IDs: ids})
